@@ -14,8 +14,8 @@ if r and not r.get('caught') and not r.get('cross',{}).get('caught'):
 PY
 )
   [ -z "$OTHERS" ] && continue
-  cd $WT; git checkout -q -- .; git clean -qfd -e .numba_cache
-  git apply $D/patch.diff 2>/dev/null || { git apply -3 $D/patch.diff 2>/dev/null && git reset -q; } || { echo "$S APPLY-FAILS"; continue; }
+  cd $WT; git reset -q --hard; git clean -qfd -e .numba_cache
+  git apply $D/patch.diff 2>/dev/null || { git apply -3 $D/patch.diff 2>/dev/null && git reset -q; } || { echo "$S APPLY-FAILS"; git reset -q --hard; continue; }
   for C in $OTHERS; do
     rm -f /verif/replays/${C}_2026*
     NV=$(cd /verif && VERIF_REPO=$WT ./check $C quick 2>&1 | grep -c "^VIOLATION")
